@@ -202,6 +202,35 @@ def stepH (ls : List LState) : HOp → List LState
 /-- A history of refreshes and set_url requests. -/
 def runHist (h : List HOp) (ls : List LState) : List LState := h.foldl stepH ls
 
+/-- One event of a history with bursts of handler calls. -/
+inductive BOp where
+  | refresh (rq : Req) (ins : List (Bool × Fetch))
+  | setURL (i : Nat) (rq : SetReq) (f : Fetch)
+  | enqueue
+  | loop
+
+def stepB (s : BState) : BOp → BState
+  | .refresh rq ins => refreshB s rq ins
+  | .setURL i rq f => (setURLAsync s i rq f).1
+  | .enqueue => enqueue s
+  | .loop => drain s
+
+def runB (ops : List BOp) (s : BState) : BState := ops.foldl stepB s
+
+/-- The waiting task, if any, is about the list set as it is now; and when
+nothing is waiting the engine's view agrees with the files. -/
+def BInv (s : BState) : Prop :=
+  (∀ snap, s.pending = some snap → snap = enabledFlags s.ls) ∧
+  (s.pending = none → ∀ l ∈ s.ls, InSync l)
+
+/-- Monitor of the loop step: after `updatesLoop` has taken the waiting task
+the engine's view of every list is the file of that list if it is enabled in
+the configuration accepted last, nothing otherwise. -/
+def loopSpecWhy (i : Nat) (enabled : Bool) (after : ListObs) : Option String :=
+  if after.inForce != maskOf i (if enabled then after.file else none) then
+    some "engine-not-in-sync-after-reload"
+  else none
+
 /-- What the harness observes of list `i` in model state `l`. -/
 def obsOf (i : Nat) (l : LState) (rew : Bool) : ListObs :=
   ⟨l.flt.count, l.flt.checksum, l.flt.file, maskOf i l.inForce, rew,
